@@ -7,6 +7,9 @@ Definition is_none (v : value) : bool := match v with VNone => true | _ => false
 (* Python len() of a slot value; None when len() raises TypeError *)
 Definition py_len (v : value) : option Z :=
   match v with VStr s => Some (zlen s) | VBytes b => Some (zlen b) | VList l => Some (zlen l) | _ => None end.
+(* the constructor's assignment to a length field's slot: len(self._f) [if self._f is not None else None] *)
+Definition length_slot (fv : value) : option value :=
+  match py_len fv with Some l => Some (VInt l) | None => if is_none fv then Some VNone else None end.
 (* truthiness, for `1 if x else 0` *)
 Definition truthy (v : value) : bool :=
   match v with VNone => false | VInt z => negb (z =? 0) | VBool b => b | VStr s => negb (zlen s =? 0)
@@ -157,12 +160,16 @@ Section WithRec.
         match assoc flds fr with
         | None => (w, Err EAttribute, rmo)
         | Some fv =>
-          match py_len fv with
+          (* the slot holds len(referencing field), or None when that (optional) field is None *)
+          match length_slot fv with
           | None => (w, Err EType, rmo)
-          | Some l =>
-            let '(rmo', go) := opt_guard optional opt_first rmo (VInt l) in
+          | Some sv =>
+            let '(rmo', go) := opt_guard optional opt_first rmo sv in
             if negb go then (w, Ok tt, rmo') else
-            let '(w', r) := w_add_int_of t w (l - off) in (w', r, rmo')
+            match sv with
+            | VInt l => let '(w', r) := w_add_int_of t w (l - off) in (w', r, rmo')
+            | _ => (w, Err ESerialization, rmo')        (* "<length field> must be provided." *)
+            end
           end
         end
       end
@@ -177,7 +184,7 @@ Section WithRec.
       | Some fv, Some dv =>
         let z := match fv with VInt z => Some z | VBool b => Some (if b then 1 else 0) | _ => None end in
         match find_case cases z with
-        | None => (w, Ok tt, rmo)
+        | None => if is_none dv then (w, Ok tt, rmo) else (w, Err ESerialization, rmo)   (* no case matches: case data must be None *)
         | Some c =>
           match c_cls c with
           | None => if is_none dv then (w, Ok tt, rmo) else (w, Err ESerialization, rmo)
